@@ -13,6 +13,7 @@ the repository's own test-suite when run with pytest_plugin.py.
 from __future__ import annotations
 
 import functools
+import inspect
 import os
 import re
 from dataclasses import dataclass, field
@@ -328,13 +329,26 @@ def _run_hooks(cls, obj, entry) -> None:
 
 def _wrap_fluent(cls, name):
     orig = cls.__dict__[name]
+    try:
+        sig = inspect.signature(orig)
+    except (TypeError, ValueError):
+        sig = None
 
     @functools.wraps(orig)
     def wrapper(self, *args, **kwargs):
         d = self.__dict__
         if not HUB.active or d.get("_pta_in", 0):
             return orig(self, *args, **kwargs)  # nested fluent call: not a boundary crossing
-        entry = [name, [_plain(a) for a in args], None]
+        given = list(args)
+        if kwargs:
+            # arguments passed by their documented names are the same arguments: recorded in positional order
+            try:
+                ba = sig.bind(self, *args, **kwargs)
+                given = [v for k, v in list(ba.arguments.items())[1:]]
+                HUB.acc.count("fluent_calls_with_keyword_arguments")
+            except Exception:  # noqa: BLE001
+                given = list(args) + list(kwargs.values())
+        entry = [name, [_plain(a) for a in given], None]
         trace_of(self).append(entry)
         d["_pta_in"] = 1
         try:
